@@ -368,3 +368,72 @@ func Carriers(p *core.Program, fn *core.FuncRef) []*Carrier {
 	return out
 }
 
+
+// ---------------------------------------------------------------------------
+// ERR6b: messages that may carry an error must not be discarded unread
+
+type Discard struct {
+	Fn   *core.FuncRef
+	Pos  token.Pos
+	What string
+	Type string
+}
+
+// DiscardedCarriers finds receives from channels whose element type carries an
+// error field where the received value is thrown away (`for range ch {}`,
+// `<-ch` as a statement, `_ = <-ch`, `case <-ch:`).
+func DiscardedCarriers(p *core.Program, fn *core.FuncRef) (out []*Discard, nRecv int) {
+	info := fn.Info()
+	carrierElem := func(e ast.Expr) (string, bool) {
+		tv, ok := info.Types[e]
+		if !ok {
+			return "", false
+		}
+		ch, ok := tv.Type.Underlying().(*types.Chan)
+		if !ok {
+			return "", false
+		}
+		el := ch.Elem()
+		if sl, ok := el.Underlying().(*types.Slice); ok {
+			el = sl.Elem()
+		}
+		if _, ok := errField(el); !ok {
+			return "", false
+		}
+		return types.TypeString(el, func(*types.Package) string { return "" }), true
+	}
+	core.WalkStack(fn.Decl.Body, func(n ast.Node, stack []ast.Node) bool {
+		switch x := n.(type) {
+		case *ast.RangeStmt:
+			if t, ok := carrierElem(x.X); ok {
+				nRecv++
+				id, _ := x.Key.(*ast.Ident)
+				if x.Key == nil || (id != nil && id.Name == "_") {
+					out = append(out, &Discard{Fn: fn, Pos: x.Pos(), What: "for range " + core.ExprStr(x.X), Type: t})
+				}
+			}
+		case *ast.UnaryExpr:
+			if x.Op != token.ARROW {
+				return true
+			}
+			t, ok := carrierElem(x.X)
+			if !ok {
+				return true
+			}
+			nRecv++
+			if len(stack) == 0 {
+				return true
+			}
+			switch par := stack[len(stack)-1].(type) {
+			case *ast.ExprStmt:
+				out = append(out, &Discard{Fn: fn, Pos: x.Pos(), What: "<-" + core.ExprStr(x.X) + " as a statement", Type: t})
+			case *ast.AssignStmt:
+				if id, ok := par.Lhs[0].(*ast.Ident); ok && id.Name == "_" {
+					out = append(out, &Discard{Fn: fn, Pos: x.Pos(), What: "_ = <-" + core.ExprStr(x.X), Type: t})
+				}
+			}
+		}
+		return true
+	})
+	return out, nRecv
+}
